@@ -175,5 +175,5 @@ META = {
     "technique": "sibling agreement over resolved call arguments of the five path walkers; purity facts (constness, const_cast, std::map::operator[] vs find) and guard dominance on the writer and the merge",
     "level": "Static decision that all path accessors tokenise a path identically, that has()/get()/const operator[] cannot create entries (const, find-only, no member writes), that the writing operator[] "
              "creates intermediates as objects behind an is-object guard, that every walker consults a node's children map only under a type == object_ test on that node (a leaf's stale children are never visible), and that += merges recursively exactly when both sides are objects with the right-hand side winning otherwise. Holds for every path and history.",
-    "note": "Does not decide the nested-dictionary model equality itself (value-level over histories); sizes and array indexing are not covered.",
+    "note": "Does not decide the nested-dictionary model equality itself (value-level over histories); sizes and array indexing are not covered. Probed from outside (DESIGN 10.9, probes/P24), not reported by a rule here: += under a key containing '/' does not merge (has(key) splits the literal key), reading a missing path through the non-const operator[] creates entries, += on an undefined json is not an assignment.",
 }
